@@ -366,6 +366,14 @@ def expr_has_power(e):
     return e.operator in (G.POW, G.SPOW) or any(expr_has_power(o) for o in e.operands)
 
 
+def expr_has_kink(e):
+    from bingo.symbolic_regression.agraph.operator_definitions import ABS, SQRT, LOGARITHM, SAFE_POWER
+    if getattr(e, "operator", None) in (ABS, SQRT, LOGARITHM, SAFE_POWER):
+        return True
+    ops = getattr(e, "operands", None) or []
+    return any(expr_has_kink(o) for o in ops if hasattr(o, "operator"))
+
+
 def cas_constants_oracle(ctx, rep, st, D, case):
     """`automatic_simplify` with the constants KEPT as constants (rewrites that fire only for CONSTANT operands, e.g.
     power-of-a-power with a constant exponent, are invisible once constants are turned into variables): the expression
@@ -448,6 +456,11 @@ def cas_folding_oracle(ctx, rep, st, D, case):
     except Exception:
         return
     if not ids2 or len(ids2) > 4 or expr_has_power(e1) or int_overflow(st):
+        return
+    if expr_has_kink(e2):
+        # |.|, sqrt|.|, log|.| make the folded expression only PIECEWISE affine in its constants: the linear solve is exact on one
+        # piece and says nothing about the others (false alarm of the thorough tier on |c - x|): inconclusive
+        rep.count("cas_folding", "piecewise (abs / sqrt / log): inconclusive")
         return
     cv = {i: G.nice_value(rng) * 1.0371 for i in ids1}
     npts = 2 * len(ids2) + 6
